@@ -69,11 +69,20 @@ Inductive out :=
 | RStat (isdir : bool) (size mode mtime : Z)
 | RList (names : list name)
 | RData (d : list Z)
-| RNode (n : node).
+| RNode (n : node)
+| RSess (l : list (list Z)).   (* a descriptor session: File.node's content after every Flush and after Close *)
 
 Definition is_ok (x : out) : bool := match x with RErr _ => false | _ => true end.
 
 (** ---------- operations ---------- *)
+(** what is done through one write descriptor between Open and Close *)
+Inductive fdact :=
+| AWrite (data : list Z)              (* fd.Write at the current position *)
+| AWriteAt (data : list Z) (at_ : Z)  (* fd.WriteAt *)
+| ATrunc (n : Z)                      (* fd.Truncate *)
+| ASeek (rel : bool) (off : Z)        (* fd.Seek(off, SeekStart) / (off, SeekCurrent) *)
+| AFlush.                             (* fd.Flush *)
+
 Inductive op :=
 | OMkdir (p : list name) (parents flush : bool)   (* mfs.Mkdir *)
 | OCreate (p : list name)                         (* mfs.PutNode of an empty file node *)
@@ -86,7 +95,8 @@ Inductive op :=
 | OFlush (p : list name)                          (* mfs.FlushPath; result = the DAG of the returned node *)
 | OStat (p : list name)                           (* Lookup; type, Size, Mode, ModTime *)
 | OList (p : list name)                           (* Lookup; ListNames *)
-| ORead (p : list name).                          (* Lookup; Open(Read); read all; Close *)
+| ORead (p : list name)                           (* Lookup; Open(Read); read all; Close *)
+| OFd (p : list name) (sync : bool) (acts : list fdact). (* Lookup; Open(Write,Sync); the acts; Close *)
 
 Fixpoint split_last {A} (l : list A) : option (list A * A) :=
   match l with
@@ -116,6 +126,35 @@ Definition dir_name (p : list name) : name :=
 Definition bump (t : Z) : Z := if t =? 0 then 0 else ANYSET.
 Definition resize (n : Z) (d : list Z) : list Z :=
   firstn (Z.to_nat n) d ++ repeat 0 (Z.to_nat n - length d).
+(** the byte-array write: zero-fill up to [off], then overwrite/extend with [b] *)
+Definition zlen (l : list Z) : Z := Z.of_nat (length l).
+Definition wr_at (f : list Z) (off : Z) (b : list Z) : list Z :=
+  let f' := f ++ repeat 0 (Z.to_nat (off - zlen f)) in
+  firstn (Z.to_nat off) f' ++ b ++ skipn (Z.to_nat (off + zlen b)) f'.
+(** the descriptor's view (content, position) under one act; the position is a function of
+    the acts alone (SeekEnd is not used), a Seek target beyond the end would zero-fill *)
+Definition pos_step (p : Z) (a : fdact) : Z :=
+  match a with
+  | AWrite d => p + zlen d
+  | AWriteAt d at_ => at_ + zlen d
+  | ATrunc _ => p
+  | ASeek rel off => if rel then p + off else off
+  | AFlush => p
+  end.
+Definition c_step (c : list Z) (p : Z) (a : fdact) : list Z :=
+  match a with
+  | AWrite d => wr_at c p d
+  | AWriteAt d at_ => wr_at c at_ d
+  | ATrunc n => resize n c
+  | ASeek rel off => let t := if rel then p + off else off in c ++ repeat 0 (Z.to_nat (t - zlen c))
+  | AFlush => c
+  end.
+Fixpoint c_run (c : list Z) (p : Z) (seg : list fdact) : list Z :=
+  match seg with [] => c | a :: r => c_run (c_step c p a) (pos_step p a) r end.
+Definition pos_run (p : Z) (seg : list fdact) : Z := fold_left pos_step seg p.
+(** fd.Write/WriteAt/Truncate set stateDirty; Seek does not *)
+Definition seg_dirty (seg : list fdact) : bool :=
+  existsb (fun a => match a with AWrite _ | AWriteAt _ _ | ATrunc _ => true | _ => false end) seg.
 Definition newfile : node := NFile [] 0 0.
 Definition newdir : node := NDir [] 0 0.
 Definition is_dirnode (n : node) : bool := match n with NDir _ _ _ => true | _ => false end.
@@ -178,6 +217,35 @@ Definition tg_unlink (k : name) (n : node) : node * out :=
   match n with
   | NDir e m t => if has e k then (NDir (del k e) m t, ROk) else (n, RErr ENotExist)
   | NFile _ _ _ => (n, RErr EOther)
+  end.
+
+(** flushUp at the end of a segment of acts: in state created ([first]) or dirty the
+    descriptor's content becomes the file's; in state flushed nothing happens *)
+Definition tg_fseg (first : bool) (pos : Z) (seg : list fdact) (n : node) : node * out :=
+  match n with
+  | NFile d m t =>
+      if first || seg_dirty seg
+      then let d' := c_run d pos seg in (NFile d' m (if seg_dirty seg then bump t else t), RData d')
+      else (n, RData d)
+  | NDir _ _ _ => (n, RErr EOther)
+  end.
+(** one descriptor session: every AFlush ends a segment (full sync), Close ends the last one *)
+Fixpoint t_fd (p : list name) (first : bool) (pos : Z) (cur acts : list fdact)
+         (t : node) (outs : list (list Z)) : node * out :=
+  match acts with
+  | [] =>
+      let (t', x) := tnav p (tg_fseg first pos cur) t in
+      match x with
+      | RData d => (t', RSess (rev (d :: outs)))
+      | _ => if first then (t', x) else (t', RSess (rev outs))
+      end
+  | AFlush :: r =>
+      let (t', x) := tnav p (tg_fseg first pos cur) t in
+      match x with
+      | RData d => t_fd p false (pos_run pos cur) [] r t' (d :: outs)
+      | _ => if first then (t', x) else t_fd p false (pos_run pos cur) [] r t' outs
+      end
+  | a :: r => t_fd p first pos (cur ++ [a]) r t outs
   end.
 
 Fixpoint t_mkdir (p : list name) (parents : bool) (t : node) : node * out :=
@@ -269,6 +337,7 @@ Definition t_step (t : node) (o : op) : node * out :=
   | OStat p => tnav p tg_stat t
   | OList p => tnav p tg_list t
   | ORead p => tnav p tg_read t
+  | OFd p _ acts => t_fd p true 0 [] acts t []
   end.
 
 Fixpoint t_run (t : node) (ops : list op) : node * list out :=
@@ -370,6 +439,15 @@ Definition g_isdir (o : obj) : lres :=
 Definition g_fmod (h : list Z -> Z -> Z -> list Z * Z * Z) (s : bool) (o : obj) : lres :=
   match o with
   | OFile d m t => let '(d', m', t') := h d m t in (OFile d' m' t', ROk, s)
+  | ODir _ _ _ _ => (o, RErr EOther, false)
+  end.
+(** fileDescriptor.flushUp(fullSync = [pr]) after a segment of acts *)
+Definition g_fseg (first : bool) (pos : Z) (seg : list fdact) (pr : bool) (o : obj) : lres :=
+  match o with
+  | OFile d m t =>
+      if first || seg_dirty seg
+      then let d' := c_run d pos seg in (OFile d' m (if seg_dirty seg then bump t else t), RData d', pr)
+      else (o, RData d, false)
   | ODir _ _ _ _ => (o, RErr EOther, false)
   end.
 Definition g_chmod (mode : Z) (o : obj) : lres := (set_mode mode (sync o), ROk, true).
@@ -490,6 +568,24 @@ Definition m_at_parent (p : list name) (g : name -> obj -> lres) (o : obj) : obj
   | Some (d, k) => res2 (nav d (g k) o)
   end.
 
+Fixpoint m_fd (p : list name) (sync : bool) (first : bool) (pos : Z) (cur acts : list fdact)
+         (o : obj) (outs : list (list Z)) : obj * out :=
+  match acts with
+  | [] =>
+      let '(o', x, _) := nav p (g_fseg first pos cur sync) o in          (* Close: flushUp(Sync flag) *)
+      match x with
+      | RData d => (o', RSess (rev (d :: outs)))
+      | _ => if first then (o', x) else (o', RSess (rev outs))
+      end
+  | AFlush :: r =>
+      let '(o', x, _) := nav p (g_fseg first pos cur true) o in          (* fd.Flush: flushUp(true) *)
+      match x with
+      | RData d => m_fd p sync false (pos_run pos cur) [] r o' (d :: outs)
+      | _ => if first then (o', x) else m_fd p sync false (pos_run pos cur) [] r o' outs
+      end
+  | a :: r => m_fd p sync first pos (cur ++ [a]) r o outs
+  end.
+
 Definition m_step (fl : flags) (o : obj) (op : op) : obj * out :=
   match op with
   | OMkdir p parents f =>
@@ -506,6 +602,7 @@ Definition m_step (fl : flags) (o : obj) (op : op) : obj * out :=
   | OStat p => res2 (nav p g_stat o)
   | OList p => res2 (nav p g_list o)
   | ORead p => res2 (nav p g_read o)
+  | OFd p sync acts => m_fd p sync true 0 [] acts o []
   end.
 
 Fixpoint m_run (fl : flags) (o : obj) (ops : list op) : obj * list out :=
@@ -570,6 +667,7 @@ Definition out_match (model obs : out) : bool :=
   | RList l, RList l' => list_eqb Z.eqb (sort_names l) (sort_names l')
   | RData d, RData d' => list_eqb Z.eqb d d'
   | RNode n, RNode n' => node_match (canon n) (canon n')
+  | RSess l, RSess l' => list_eqb (list_eqb Z.eqb) l l'
   | _, _ => false
   end.
 
